@@ -690,7 +690,7 @@ func (s *sess) deliver(e *lp.Exec, fl uint32, hold bool) string {
 	if hold {
 		s.holdNext = true
 		s.injDone = make(chan bool, 1)
-		go func() { s.injDone <- vsys.InjectTimeout(s.epfd, evs, 60*time.Second) }()
+		go func() { s.injDone <- vsys.InjectPatient(s.epfd, evs, 60*time.Second) }()
 		select {
 		case <-s.pollerHeld:
 			s.held = true
@@ -701,7 +701,7 @@ func (s *sess) deliver(e *lp.Exec, fl uint32, hold bool) string {
 				s.stuck(e, "poller did not finish the event batch")
 			}
 		}
-	} else if !vsys.InjectTimeout(s.epfd, evs, 60*time.Second) {
+	} else if !vsys.InjectPatient(s.epfd, evs, 60*time.Second) {
 		s.stuck(e, "poller did not finish the event batch")
 	}
 	s.runDef(e)
@@ -718,11 +718,27 @@ func (s *sess) runDef(e *lp.Exec) {
 		}
 		_, _, r0, _ := s.v.ReadSide()
 		s.defHold <- struct{}{}
-		select {
-		case <-s.defDone:
-		case <-time.After(3 * time.Second):
+		// one-sided: a task that SPINS shows in the read-call counter within seconds; one that merely has not been
+		// scheduled yet (loaded machine) gets a minute
+		done := false
+		var waited time.Duration
+		for !done {
+			select {
+			case <-s.defDone:
+				done = true
+			case <-time.After(3 * time.Second):
+				waited += 3 * time.Second
+			}
+			if done {
+				break
+			}
+			if _, _, r1, _ := s.v.ReadSide(); r1-r0 > 10000 || waited >= 63*time.Second {
+				break
+			}
+		}
+		if !done {
 			_, _, r1, i1 := s.v.ReadSide()
-			s.stuck(e, fmt.Sprintf("read task (engine's own executor) still running after 3s without new input: read calls %d -> %d (idle %d)", r0, r1, i1))
+			s.stuck(e, fmt.Sprintf("read task (engine's own executor) still running after %v without new input: read calls %d -> %d (idle %d)", waited, r0, r1, i1))
 			_ = s.c.Close()
 			select {
 			case <-s.defDone:
@@ -876,7 +892,7 @@ func (s *sess) sidePump(e *lp.Exec, fds []int, stale []syscall.EpollEvent) {
 			return
 		}
 		for ep, evs := range batches {
-			if !vsys.InjectTimeout(ep, evs, 60*time.Second) {
+			if !vsys.InjectPatient(ep, evs, 60*time.Second) {
 				s.stuck(e, "poller did not finish the event batch (side conns)")
 				return
 			}
